@@ -38,7 +38,7 @@ def run(c):
     c.mechanism = {"adapter view = source operator, rows/cols/nonzeros, spmv (all index types)": "M+V",
                    "zero-copy: pointer identity, canaries, user memory never freed/written, no double free": "M+V",
                    "Dense(Reordered) = P^T A P, reordered_vector, Dense(Scaled) = S A S": "M+V",
-                   "preconditioner from shuffled rows = from sorted rows (apply, 1 thread)": "V (quantised agreement <= 1e-9 or bitwise)",
+                   "preconditioner from shuffled rows = from sorted rows (apply, 1 thread)": "V (bitwise at 1 thread)",
                    "reorder / scaled problem: back-transformed solution solves the original system": "O (true residual in long double, quantised)"}
     c.assumptions = ["integer-valued matrices: operator equality is exact",
                      "the block adapter and make_block_solver are fed sorted rows only (their documentation requires them)",
@@ -50,7 +50,7 @@ def run(c):
 
     def models():
         c.tlc_model("AdaptersModel", constants={"R": 4, "C": 4, "ORD": '"two"'} if th else None, workers=8)
-        c.tlc_model("AdaptersModel", constants={"R": 2, "C": 3}, workers=4)
+        c.tlc_model("AdaptersModel", cfg="AdaptersRect.cfg", workers=4)
         c.tlc_model("OwnershipModel", constants={"MaxOps": 7 if th else 6}, workers=4)
         m = c.tlc_model("OwnershipModel", cfg="OwnershipLeak.cfg", workers=2, coverage=False)
         leak["model"] = bool(m["violated"])
@@ -85,7 +85,7 @@ def run(c):
             elif '"k":"own"' in ln:
                 if ln.count('"op"') >= 3:
                     c.nontrivial.add(hashlib.sha1(ln.split('"obs"')[0].encode()).hexdigest()[:12])
-            elif '"k":"precond"' in ln or '"k":"solve"' in ln:
+            elif '"k":"precond"' in ln or '"k":"solve"' in ln or '"k":"shared"' in ln:
                 c.nontrivial.add(hashlib.sha1(ln.encode()).hexdigest()[:12])
         notes = judge(c, res, "adapter / ownership / row-order property fails on the real code", stage=mode)
         leak_obs += sum(v for k, v in notes.items() if "leak" in k)
